@@ -250,4 +250,18 @@ def outcomeOf (w : World) (s : PS) : Outcome :=
 def runProcess (w : World) (o : Opts) (childBad : Nat → Bool) : Outcome :=
   outcomeOf w (finalState w o childBad)
 
+/-! ### the parts of `finalState`, named -/
+
+def fsStart (w : World) (o : Opts) : PS :=
+  if o.processes > 1 && o.resume.isNone then ({} : PS).emit (.summary 0 0 w.importErrors 0) else {}
+
+/-- the state after the layer loop of this process, with the layers left for `resume_tests` -/
+def fsLoop (w : World) (o : Opts) : PS × List (Nat × List TestDef) :=
+  if o.processes > 1 && o.resume.isNone then (fsStart w o, orderedLayers w o)
+  else layerLoop w o (orderedLayers w o) (fsStart w o)
+
+def fsSpawned (w : World) (o : Opts) (cb : Nat → Bool) : PS :=
+  if o.resume.isNone then spawnAll o cb (fsLoop w o).2 (if o.processes > 1 then 1 else 0) (fsLoop w o).1
+  else (fsLoop w o).1
+
 end Ztr.Runner
